@@ -224,11 +224,13 @@ def gen_scenario(rng, quick):
     return {"spec": spec, "profile": profile, "steps": steps, "pick": rng.getrandbits(30)}
 
 
-def gen_p_only_island(rng):
+def gen_p_only_island(rng, fixed=None):
     """directed family: a second island supplied by a pressure-only ext grid (type "p") is calculated
     hydraulically but not thermally, so the heat-transfer active pit is smaller than the hydraulic one"""
     pn, t0 = rng.choice([5.0, 0.2, 60.0]), rng.choice([300., 283.15, 600.])
     md, d = rng.choice([0.05, 1.0, 8.0]), rng.choice([40., 80.])
+    if fixed:
+        pn, t0, md, d = fixed
     ops = [["create_junction", {"pn_bar": pn, "tfluid_k": t0, "index": i}] for i in range(5)]
 
     def pipe(i, a, b, sections=1):
@@ -241,8 +243,15 @@ def gen_p_only_island(rng):
     steps = [{"mut": "none", "mode": m, "method": meth} for m, meth in
              rng.sample([("bidirectional", "automatic"), ("bidirectional", "constant"), ("sequential", "automatic"),
                          ("bidirectional", "automatic")], 3)]
+    if fixed:
+        steps = [{"mut": "none", "mode": "bidirectional", "method": "automatic"},
+                 {"mut": "none", "mode": "bidirectional", "method": "constant"}]
     return {"spec": {"fluid": "water", "ops": ops}, "profile": "water_p_only_island", "steps": steps,
-            "pick": rng.getrandbits(30)}
+            "pick": rng.getrandbits(30) if not fixed else 0}
+
+
+# fixed corpus (own PRNG, runs first on every seed): literal witnesses of every finding listed in known/C05.json
+CORPUS = [lambda: gen_p_only_island(__import__("random").Random(5), fixed=(5.0, 300.0, 0.05, 40.0))]
 
 
 def gen_thermal_failure(rng):
@@ -471,9 +480,9 @@ def run_scenarios(ctx, n_scen):
     n_calls = 0
     n_directed = max(4, n_scen // 20)
     n_thermal = max(21, n_scen // 6)
-    for i_sc in range(n_scen + n_directed + n_thermal):
-        sc = gen_scenario(rng, ctx.quick) if i_sc < n_scen else gen_p_only_island(rng) if i_sc < n_scen + n_directed \
-            else gen_thermal_failure(rng)
+    for i_sc in range(-len(CORPUS), n_scen + n_directed + n_thermal):
+        sc = CORPUS[i_sc + len(CORPUS)]() if i_sc < 0 else gen_scenario(rng, ctx.quick) if i_sc < n_scen else \
+            gen_p_only_island(rng) if i_sc < n_scen + n_directed else gen_thermal_failure(rng)
         try:
             net = gen.build(sc["spec"])
         except Exception as e:  # noqa: BLE001
